@@ -117,6 +117,8 @@ fn diagnostic_json(d: &Diagnostic) -> J {
     })
 }
 
+mod ext;
+
 fn job_path(job: &J) -> PathBuf {
     PathBuf::from(job["path"].as_str().unwrap_or("/verif_scratch/main.gdn"))
 }
@@ -510,6 +512,35 @@ pub(crate) fn canon_env(env: &Env) -> String {
     let mut types: Vec<_> = env.types.keys().map(|k| k.text.clone()).collect();
     types.sort();
     s.push_str(&format!("TY{}", types.len()));
+    // Saved arguments of earlier calls: eval-up-to answers depend on them.
+    let mut pca: Vec<String> = env
+        .prev_call_args
+        .iter()
+        .map(|((n, p), vs)| {
+            format!(
+                "{}@{}={:?}",
+                n.text,
+                p.display(),
+                vs.iter().map(|v| v.display(env)).collect::<Vec<_>>()
+            )
+        })
+        .collect();
+    pca.sort();
+    s.push_str(&format!("PCA{pca:?}"));
+    let mut pma: Vec<String> = vec![];
+    for (t, methods) in env.prev_method_call_args.iter() {
+        for (n, (recv, vs)) in methods.iter() {
+            pma.push(format!(
+                "{}::{}={}{:?}",
+                t.text,
+                n.text,
+                recv.display(env),
+                vs.iter().map(|v| v.display(env)).collect::<Vec<_>>()
+            ));
+        }
+    }
+    pma.sort();
+    s.push_str(&format!("PMA{pma:?}"));
     s
 }
 
@@ -770,6 +801,13 @@ fn handle_job(job: &J) -> J {
         "front_many" => job_front_many(job),
         "ast_expect" => job_ast_expect(job),
         "chains" => job_chains(job),
+        "refactor" => ext::job_refactor(job),
+        "eval_up_to" => ext::job_eval_up_to(job),
+        "fix" => ext::job_fix(job),
+        "types" => ext::job_types(job),
+        "lsp" => ext::job_lsp(job),
+        "lsp_conv" => ext::job_lsp_conv(job),
+        "lsp_points" => ext::job_lsp_points(job),
         _ => json!({"error": format!("unknown op {op}")}),
     });
     stop_capture();
